@@ -39,6 +39,10 @@ CHECKS = {
             "Runtime monitor of bounded progress in virtual time: crash / hung-process scenarios on real clusters under loss and config variation; an oracle over dump polls and event logs checks for every (survivor, crashed) pair that the leave event arrives within the configuration-derived bound after the last time the survivor could have heard the member alive; a log-based pace monitor checks that every failing probe is given up by its slowest awareness-scaled deadline; a tap-based schedule monitor checks in fault-free stable runs that per-peer probe counts differ by at most 2 and nobody probes itself; an in-process stall detector turns a wedged node (mutex-parked goroutines for minutes) into a violation. The unbounded 'eventually' is restated as this bound; nothing is claimed beyond the executions produced.",
             "Trusts synctest virtual time, the bound formula (loose by design), 200 ms poll granularity for alive-acceptance tracking (conservative direction), the real-time stall threshold of 90 s (only used to detect a wedged process).",
             "bounded-liveness oracle + pace/schedule monitors on tap and logs (virtual time)", "DESIGN.md §3 C03"),
+    "C05": ("E1-simnet (fault-scenario engine)", "exploration",
+            "Runtime monitor of bounded progress in virtual time: PRNG fault scripts (loss, duplication, delay/reordering, partitions, one-way blocks, crashes, hung processes, same-address restarts, address take-over by another name, leaves, metadata updates) on real clusters; at T_stop the stated connectivity precondition is evaluated on Members(); judged scenarios must reach 'every live node lists exactly the live nodes with the owner's current metadata, suspects nobody live, lists nobody crashed or departed' within the settle bound (re-checked to 4x). A deterministic classifier names each failure; one named failure is a registered known finding (C05/bridge-only-suspect, reproduced by a scripted state-triggered scenario on every run), every other failure is a VIOLATION.",
+            "Trusts synctest, the simulated network (datagrams drop/dup/delay/reorder; TCP dials retransmit the SYN with exponential backoff), the settle bound formula.",
+            "bounded-convergence oracle over fault scripts (virtual time) with finding classifier", "DESIGN.md §3 C05"),
 }
 
 NOT_YET = "check not built yet in this round (design in DESIGN.md §3); not claimed until its monitor runs clean on the unchanged tree"
@@ -74,7 +78,7 @@ def main():
             "add_only": True,
         },
         "engines": [
-            {"name": "E1-simnet", "path": "harness/simnet.go", "serves_properties": ["C02", "C03", "C04", "C17"], "kind_free_text": "real Memberlist instances on an in-memory transport inside a testing/synctest bubble (virtual time), with wire tap, fault scripts and fake peers"},
+            {"name": "E1-simnet", "path": "harness/simnet.go", "serves_properties": ["C02", "C03", "C04", "C05", "C17"], "kind_free_text": "real Memberlist instances on an in-memory transport inside a testing/synctest bubble (virtual time), with wire tap, fault scripts and fake peers"},
             {"name": "E2-model-lockstep", "path": "harness/", "serves_properties": ["C01", "C02", "C06", "C10", "C17", "C18"], "kind_free_text": "PRNG operation sequences against one object with an executable reference model evaluated in lock-step"},
         ],
         "checks": checks,
